@@ -233,3 +233,36 @@ Definition keep_memory (s : sk) : bool :=
   | SCall f => names ["Random"; "Perm"; "Copy"] f
   | _ => false
   end.
+
+(* ------------------------------------------------------------------ *)
+(* Field locksets of objects shared between the runs (C14)              *)
+(* ------------------------------------------------------------------ *)
+
+(* one access of a field of the receiver in a method of a type that owns
+   mutexes, as the translator lists it (Gen/Skeleton_fieldlocks.v): type,
+   method, field (path), write?, receiver mutexes held at that point *)
+Definition faccess := (string * string * string * bool * list string)%type.
+Definition fa_type (a : faccess) : string := fst (fst (fst (fst a))).
+Definition fa_method (a : faccess) : string := snd (fst (fst (fst a))).
+Definition fa_field (a : faccess) : string := snd (fst (fst a)).
+Definition fa_write (a : faccess) : bool := snd (fst a).
+Definition fa_locks (a : faccess) : list string := snd a.
+
+Definition same_field (a b : faccess) : bool :=
+  String.eqb (fa_type a) (fa_type b) && String.eqb (fa_field a) (fa_field b).
+Definition fa_common_lock (a b : faccess) : bool :=
+  existsb (fun m => existsb (String.eqb m) (fa_locks b)) (fa_locks a).
+
+(* the lockset condition, pairwise: two accesses of one field, one of them a
+   write, neither in an exempted method, hold no common mutex *)
+Definition field_conflicts (exempt : string -> bool) (l : list faccess) : list (string * string * string * string) :=
+  flat_map (fun a =>
+    flat_map (fun b =>
+      if same_field a b && fa_write a && negb (fa_common_lock a b) &&
+         negb (exempt (fa_method a)) && negb (exempt (fa_method b))
+      then [(fa_type a, fa_field a, fa_method a, fa_method b)] else []) l) l.
+
+(* the rows of the fields that some method accesses under a mutex *)
+Definition guarded_somewhere (l : list faccess) (a : faccess) : bool :=
+  existsb (fun b => same_field a b && negb (match fa_locks b with [] => true | _ => false end)) l.
+Definition project_guarded (l : list faccess) : list faccess := filter (guarded_somewhere l) l.
